@@ -250,6 +250,13 @@ def nav(ctx):
     def nav_elems(e, s, tr):
         tr.append(('nav', src(e['_M']), src(e['_I']), src(e['_K']), src(e['_R']), src(e['_P'])))
         return [absint.Sym(ast.Name(id='RES_' + src(e['_I']), ctx=ast.Load()))]
+    # nothing may be filtered out of a step: a conditional inside the instance / result loops is a deviation in itself
+    for lp_ in [n for n in ast.walk(nv) if isinstance(n, ast.For)]:
+        for g_ in [n for n in ast.walk(lp_) if isinstance(n, (ast.If, ast.Break, ast.Continue))]:
+            if isinstance(g_, ast.If):
+                r.violation('NavChain._nav yields the results of a step only under `%s`: a step must hand on every result of every instance '
+                            '(duplicates are removed by the consumer, by identity of the result)' % src(g_.test), g_, construct=M + 'NavChain._nav',
+                            key='filtered-step')
     for isint in (True, False):
         it = absint.Interp(nv, [('isinstance(%s, int)' % R2, lambda e, s, tr: s['int'])],
                            [('yield _X', lambda e, s, tr: tr.append(('yield', src(e['_X']))))],
